@@ -13,7 +13,7 @@ ID = "C01"
 LEVEL = "exploration"
 TECHNIQUE = "generated stock-and-flow models (Hypothesis) simulated through the DSL vs an independent explicit-Euler interpreter"
 RULE = ("cases = abstract models (1-3 stocks, 2-6 flows/biflows/converters, 1-3 constants, lookups, delay, smooth, trend, step, "
-        "pulse, time/dt/starttime/stoptime, sinwave/coswave; built-ins also directly in stock equations) x (start, dt, n); every "
+        "pulse, time/dt/starttime/stoptime, sinwave/coswave; built-ins and plain functions of elements also directly in stock equations, literals with up to 10 significant digits) x (start, dt, n), a quarter of the models built under other run specs and re-specified with Model.run_specs; a fresh model is queried top-down, the evaluated model is re-parameterised (initial values, then constants) and compared again; every "
         "element at every grid time read via element(t), element.plot and bptk.run_scenarios must equal the reference within 1e-9 "
         "relative. non-trivial = at least one stock fed by a non-constant flow and n >= 3 and the reference is well-conditioned; "
         "distinct by canonical hash of (model, run spec)")
